@@ -11,7 +11,7 @@ def cases(tier, seed):
     cs = []
     structs = [([3], [2]), ([1], [3]), ([2, 3], [3, 1]), ([1, 2], [2, 2]), ([3, 2], [1, 2]), ([2, 1, 2], [1, 3, 2]), ([2, 2, 2], [2, 1, 1])]
     if th:
-        structs += [([2, 3, 2], [3, 2, 1]), ([2, 1, 2, 2], [1, 2, 2, 1]), ([4, 2], [2, 5]), ([5], [4])]
+        structs += [([2, 3, 2], [3, 2, 1]), ([2, 1, 2, 2], [1, 2, 2, 1]), ([4, 2], [2, 5]), ([5], [4]), ([3, 4], [5, 1]), ([2, 2, 2, 2], [2, 1, 2, 1]), ([5, 2, 1], [1, 2, 3]), ([1, 1], [4, 4])]
     for sin, sout in structs:
         d = len(sin)
         profs = _rank_profiles(d, [1, 2] if d >= 3 else [1, 2, 3])
